@@ -43,11 +43,15 @@ pub struct EventAutomaton {
     reconnects: u64,
     crossing_disconnects: u64,
     disconnect_calls: BTreeMap<usize, u64>,
+    /// (server, address) pairs to which the server has answered a connection request (SYN-ACK or
+    /// refusal) since the address' previous connection ended
+    /// value: (answers not yet matched by an Error event, call of the latest answer, answers in that call)
+    attempts: BTreeMap<(usize, SocketAddr), (u64, u64, u64)>,
 }
 
 impl EventAutomaton {
     pub fn new(property: &'static str) -> Self {
-        Self { property, states: BTreeMap::new(), terminal_events: 0, connects: 0, receives: 0, events_after_drop_checked: 0, drops: 0, reconnects: 0, crossing_disconnects: 0, disconnect_calls: BTreeMap::new() }
+        Self { property, states: BTreeMap::new(), terminal_events: 0, connects: 0, receives: 0, events_after_drop_checked: 0, drops: 0, reconnects: 0, crossing_disconnects: 0, disconnect_calls: BTreeMap::new(), attempts: BTreeMap::new() }
     }
 }
 
@@ -67,6 +71,7 @@ impl Oracle for EventAutomaton {
                 if let Some(s) = self.states.get_mut(&key) {
                     if *s == St::Connected {
                         *s = St::Ended;
+                        self.attempts.remove(&(*ep, cx.addrs[*to]));
                     }
                 }
             }
@@ -76,9 +81,27 @@ impl Oracle for EventAutomaton {
                     self.crossing_disconnects += 1;
                 }
             }
+            Rec::Wire(w) => {
+                if matches!(cx.plan.endpoints[w.src].kind, EndpointKind::Server { .. }) && matches!(w.bytes.first(), Some(&FRAME_SYN_ACK) | Some(&FRAME_HS_ERR)) {
+                    let e = self.attempts.entry((w.src, w.dst_addr)).or_insert((0, w.call, 0));
+                    if e.1 != w.call {
+                        *e = (e.0, w.call, 0);
+                    }
+                    e.0 += 1;
+                    e.2 += 1;
+                }
+            }
             Rec::Event { call, ep, peer_addr, ev, .. } => {
                 let key = (*ep, *peer_addr);
                 let st = *self.states.get(&key).unwrap_or(&St::Idle);
+                if let (Some(a), AppEvent::Disconnect | AppEvent::Error(_), St::Connected) = (peer_addr, ev, st) {
+                    // whatever the server answered before this connection ended belongs to it
+                    // (events are handed out at the end of the step() that produced them: an
+                    // answer put on the wire during this very call may follow the ending)
+                    if let Some(e) = self.attempts.get_mut(&(*ep, *a)) {
+                        e.0 = if e.1 == *call { e.0.min(e.2) } else { 0 };
+                    }
+                }
                 let who = match peer_addr {
                     Some(a) => format!("endpoint {} (peer {})", ep, a),
                     None => format!("endpoint {}", ep),
@@ -131,7 +154,17 @@ impl Oracle for EventAutomaton {
                                     return viol(prop, "event_after_terminal", format!("{}: Error({}) after the connection's terminal event", who, err_name(*k)), *call);
                                 }
                                 // server: handshake errors for an address whose previous connection
-                                // has ended are a new (failed) handshake
+                                // has ended are a new (failed) handshake - if there was one
+                                if let Some(a) = peer_addr {
+                                    let left = self.attempts.get_mut(&(*ep, *a)).map_or(false, |e| {
+                                        let ok = e.0 > 0;
+                                        e.0 = e.0.saturating_sub(1);
+                                        ok
+                                    });
+                                    if !left {
+                                        return viol(prop, "event_after_terminal", format!("{}: Error({}) after the connection's terminal event, although the server has not answered any new connection request from that address since", who, err_name(*k)), *call);
+                                    }
+                                }
                             }
                         }
                     }
@@ -343,6 +376,11 @@ impl Oracle for HandshakeOracle {
                 }
                 (EndpointKind::Client { .. }, AppEvent::Error(k)) => {
                     self.errors_client.insert(*ep, *k);
+                    // handshake refusals belong to the handshake: once the connection exists, a
+                    // stale, duplicated or forged error frame must not end it
+                    if *k != ERR_TIMEOUT && self.connects_client.get(ep).cloned().unwrap_or(0) > 0 {
+                        return viol(prop, "connection_reset_by_handshake_frame", format!("client {} reported Error({}) after it had reported Connect: an established connection was ended by a handshake error frame", ep, err_name(*k)), *call);
+                    }
                 }
                 (EndpointKind::Server { .. }, AppEvent::Connect) => {
                     self.connects_checked += 1;
